@@ -105,7 +105,7 @@ func extOf(t string) string {
 }
 
 func checkC19(c *Check) {
-	c.Rule = "the built tsh binary is run as a process on generated command lines: all orders of -i/-o/-t pairs with short and long spellings, target lists {bash}, {batch}, {bash,batch}, {batch,bash}, {bash,bash}, {bash,batch,bash}, input names (a.tsh, a.b.tsh, noext, .tsh, 'my prog.tsh', dir/sub/a.tsh; relative and absolute), output directories (., relative, absolute, with blank; with stale outputs), 10 accepted and 8 rejected programs, bad options, and fault configurations (output path is a directory; strace-injected EACCES on open / ENOSPC on write of the output file); oracle = exit status + recursive before/after stamps (size, mode, mtime, SHA-256) of the work directory + the library's output for the same file and target computed in the harness. Non-trivial = every process run; distinct = command line + program"
+	c.Rule = "the built tsh binary is run as a process on generated command lines: all orders of -i/-o/-t pairs with short and long spellings, target lists {bash}, {batch}, {bash,batch}, {batch,bash}, {bash,bash}, {bash,batch,bash}, input names (a.tsh, a.b.tsh, noext, .tsh, 'my prog.tsh', dir/sub/a.tsh; relative and absolute), output directories (., relative, absolute, with blank; with stale outputs and bystander files named like temporaries), inputs lying in the output directory under temporary-looking names, 10 accepted and 8 rejected programs, bad options, and fault configurations (output path is a directory; strace-injected EACCES on open / ENOSPC on write of the output file); oracle = exit status + recursive before/after stamps (size, mode, mtime, SHA-256) of the work directory + the library's output for the same file and target computed in the harness. Non-trivial = every process run; distinct = command line + program"
 	c.Level = "fault_enumeration"
 	c.Assumptions = []string{"the library (fresh transpiler and converter) is the reference for the bytes", "files written for targets listed before a failing target are allowed to exist (the property speaks of the failing target)", "a trailing unpaired argument and repeated -i/-o are not asserted"}
 	progs := c19Programs()
@@ -137,6 +137,14 @@ func checkC19(c *Check) {
 	for _, p := range progs {
 		for _, ts := range tsets {
 			cases = append(cases, c19Case{key: fmt.Sprintf("plain/%s/t=%s", p.name, strings.Join(ts, "+")), prog: p, inputName: "main.tsh", outDir: "out", targets: ts, argOrder: "iot", stale: true})
+		}
+	}
+	// the input lies in the output directory and is named like a temporary or backup file
+	for _, p := range []c19Prog{progs[0], progs[2]} {
+		for _, nm := range []string{"a.tmp", "a.sh.tmp", "a.bat.tmp", "a.tsh", "a", "a.sh.0.tmp", "a.tsh.tmp"} {
+			for _, ts := range [][]string{{"bash"}, {"batch"}, {"bash", "batch"}, {"batch", "bash"}} {
+				cases = append(cases, c19Case{key: fmt.Sprintf("input-in-output-dir/%s/in=%s/t=%s", p.name, hexKey(nm), strings.Join(ts, "+")), prog: p, inputName: "out/" + nm, outDir: "out", targets: ts, argOrder: "iot", stale: true})
+			}
 		}
 	}
 	// bad options
@@ -208,6 +216,11 @@ func c19Run(c *Check, cs c19Case, straceOK bool) {
 			os.WriteFile(filepath.Join(outAbs, base+"."+e), []byte("STALE OUTPUT\n"), 0o644)
 		}
 		os.WriteFile(filepath.Join(outAbs, "unrelated.txt"), []byte("keep me\n"), 0o644)
+		// bystanders named like temporary files an implementation might use: none of them may be touched
+		for _, e := range []string{".tmp", ".sh.tmp", ".bat.tmp", ".sh.0.tmp", ".bat.0.tmp", ".sh~", ".sh.bak"} {
+			os.WriteFile(filepath.Join(outAbs, base+e), []byte("bystander "+e+"\n"), 0o644)
+		}
+		os.WriteFile(filepath.Join(outAbs, ".tmp"), []byte("bystander\n"), 0o644)
 	}
 	if cs.outIsDir {
 		for _, t := range cs.targets {
